@@ -197,7 +197,7 @@ def decorate(body, name):
         bc = type(c)(**{**c.__dict__, 'S0': Sb0, 'S1': Sb1, 'S': Sb1})
         out = [(nm, Implies(g0, cl)) for nm, cl in body.post(bc) if nm != 'flags-kept']
         out += [('frame', Implies(g0, M.keep(S0, S1, frame))),
-                ('ctx-kept', S1.ctx == S0.ctx),
+                ('ctx-kept', S1.ctx == S0.ctx), ('enc-lastlen', S1.lastlen >= -1),
                 ('lastlen-kept-if-quiet', Implies(g0, S1.lastlen == S0.lastlen)),
                 ('reordering-still-enabled', (S1.lastlen >= 0) == (S0.lastlen >= 0)),
                 ('nvars-kept', S1.nvars == S0.nvars)]
@@ -458,6 +458,10 @@ reg(Contract('dd.bdd.BDD.level_of_var', [('self', 'mgr'), ('var', 'name')],
                                                                           0 <= c.r, c.r < c.S0.nvars))],
              ret='int', uses=ORD, raises={'ValueError': Raise(when=lambda c: Not(c.S0.vin[c.a.var]), must=True)}))
 
+from vlib.vc.symex import NameV  # noqa: E402
+REG['dd.bdd.BDD.level_of_var'].pure = lambda c: IntV(c.S0.v2l[c.a.var])
+REG['dd.bdd.BDD.var_at_level'].pure = lambda c: NameV(c.S0.l2v[c.a.level])
+
 reg(Contract('dd.bdd.BDD.var_levels', [('self', 'mgr')],
              pre=lambda c: wf(c.S, c.uses), post=lambda c: [('copy-of-vars', And(c.r.has == c.S0.vin, c.r.val == c.S0.v2l))],
              ret='dict:name->int', uses=ORD))
@@ -681,3 +685,119 @@ reg(Contract('dd.bdd.BDD.is_essential', [('self', 'mgr'), ('u', 'int'), ('var', 
              pre=lambda c: wf(c.S, c.uses) + [('ref', isref(c.S, c.a.u)), ('HL-is-level-of-var', Implies(c.S.vin[c.a.var], HL == c.S.v2l[c.a.var]))],
              post=lambda c: [('depends-on-var', c.r == And(c.S0.vin[c.a.var], c.S0.hl[absz(c.a.u)]))],
              ret='bool', uses={'hl', 'order'}))
+
+
+# ---- _copy_bdd / rename / copy_bdd (C04 renaming, C11) -------------------------------------------------------------
+def copy_old_state(c, post=False):
+    """state of `old_bdd` the clauses read: for the aliased case (rename) the entry state of `bdd`"""
+    if c.a.old_bdd_key == c.a.bdd_key:
+        return c.S0
+    return c.mgrs[c.a.old_bdd_key]
+
+
+def copy_memo_valid(So, Sn, cache):
+    return ForAll([x_], Implies(cache.has[x_], And(x_ > 1, So.dom[x_], cache.val[x_] > 0, Sn.dom[cache.val[x_]],
+                                                  Sn.sem[cache.val[x_]] == So.sem2[x_])), patterns=[cache.has[x_]])
+
+
+def copy_pre(c):
+    Sn, a = c.S, c.a
+    So = copy_old_state(c)
+    lm = a.level_map
+    out = wf(Sn, c.uses)
+    if a.old_bdd_key != a.bdd_key:
+        out += [('old:' + nm, g) for nm, g in wf(So, c.uses)]
+    out += [('ref', isref(So, a.u)),
+            ('level_map-total', ForAll([l_], Implies(And(0 <= l_, l_ < So.nvars), And(lm.has[l_], 0 <= lm.val[l_], lm.val[l_] < Sn.nvars)),
+                                       patterns=[lm.has[l_]])),
+            ('A2-is-A-after-level_map', ForAll([l_], Implies(lm.has[l_], A2[l_] == A[lm.val[l_]]), patterns=[lm.has[l_]])),
+            ('memo', copy_memo_valid(So, Sn, a.cache)), ('quiet', guard(Sn))]
+    return out
+
+
+def copy_post(c):
+    S0, S1, a, r = c.S0, c.S1, c.a, c.r
+    So = copy_old_state(c)
+    So1 = S1 if a.old_bdd_key == a.bdd_key else So
+    return wf(S1, c.uses) + [('Ext', Ext(S0, S1, c.uses)),
+                             ('same-function', And(isref(S1, r), semr(S1, r) == semr(So, a.u, 'sem2'))),
+                             ('same-sign', (r > 0) == (a.u > 0)),
+                             ('memo', copy_memo_valid(So1, S1, c.muts['cache'][1])), memo_grows(c), flags(S0, S1),
+                             ('order-kept', M.keep(S0, S1, list(M.ORDER_FIELDS)))]
+
+
+COPYREC = reg(Contract('dd.bdd._copy_bdd', [('u', 'int'), ('level_map', 'dict:int->int'), ('old_bdd', 'mgr'), ('bdd', 'mgr'),
+                                           ('cache', 'dict:int->int')],
+                       pre=copy_pre, post=copy_post, modifies=REC_MOD, ret='int', mgr='bdd',
+                       uses={'cache', 'rc', 'sem2', 'sem1'}, mutates=['cache'], raises=REC_RAISES))
+COPYREC.call_skip = {'level_map-total', 'A2-is-A-after-level_map'}
+
+
+def empty_means_no_member(d):
+    from vlib.vc.symex import nonempty
+    key = n_ if d.kkind == 'name' else l_
+    return ForAll([key], Implies(d.has[key], nonempty(d)), patterns=[d.has[key]])
+
+
+def rename_pre(c):
+    S, a = c.S, c.a
+    dv = a.dvars
+    tgt = lambda nm: If(dv.has[nm], dv.val[nm], nm)  # noqa
+    return wf(S, c.uses) + [
+        ('targets-declared', ForAll([n_], Implies(And(dv.has[n_], S.vin[n_]), S.vin[dv.val[n_]]), patterns=[dv.has[n_]])),
+        ('A2-is-A-after-renaming', ForAll([l_], A2[l_] == If(S.lin[l_], A[S.v2l[tgt(S.l2v[l_])]], A[l_]), patterns=[A2[l_]])),
+        ('dict-truth', empty_means_no_member(dv)), ('quiet', guard(S))]
+
+
+def rename_post(c):
+    S0, S1, a, r = c.S0, c.S1, c.a, c.r
+    return wf(S1, c.uses) + [('Ext', Ext(S0, S1, c.uses)),
+                             ('renamed', And(isref(S1, r), semr(S1, r) == semr(S0, a.u, 'sem2'))), flags(S0, S1),
+                             ('order-kept', M.keep(S0, S1, list(M.ORDER_FIELDS)))]
+
+
+RENAME_USES = {'cache', 'rc', 'sem2', 'sem1', 'order', 'agree:sem2'}
+RENAME = reg(Contract('dd.bdd.rename', [('u', 'int'), ('bdd', 'mgr'), ('dvars', 'dict:name->name')], mgr='bdd',
+                      pre=rename_pre, post=rename_post, modifies=REC_MOD, ret='int', uses=RENAME_USES,
+                      raises=dict(REC_RAISES, ValueError=Raise(when=lambda c: Not(isref(c.S0, c.a.u)), must=True))))
+RENAME_BODY = reg(Contract('dd.bdd.BDD.rename!body', [('self', 'mgr'), ('u', 'int'), ('dvars', 'dict:name->name')],
+                           pre=lambda c: rename_pre(c) + in_context(c), post=rename_post, modifies=REC_MOD, ret='int', uses=RENAME_USES,
+                           raises=RENAME.raises))
+RENAME_DEC = reg(decorate(RENAME_BODY, 'dd.bdd.BDD.rename'))
+
+
+# ---- copy between managers (C11) -----------------------------------------------------------------------------------
+def copy_bdd_pre(c):
+    a = c.a
+    Sf, St = c.mgrs[a.from_bdd_key], c.S
+    out = wf(St, c.uses)
+    if a.from_bdd_key != a.to_bdd_key:
+        out += [('from:' + nm, g) for nm, g in wf(Sf, c.uses)]
+        out += [('every-source-variable-declared-in-target', ForAll([n_], Implies(Sf.vin[n_], St.vin[n_]), patterns=[Sf.vin[n_]])),
+                ('A2-is-A-by-name', ForAll([l_], Implies(Sf.lin[l_], A2[l_] == A[St.v2l[Sf.l2v[l_]]]), patterns=[Sf.lin[l_]]))]
+    out.append(('ref', isref(Sf, a.u)))
+    return out
+
+
+def copy_bdd_post(c):
+    a, S0, S1, r = c.a, c.S0, c.S1, c.r
+    if a.from_bdd_key == a.to_bdd_key:
+        return [('same-manager-returns-u', And(r == a.u, M.keep(S0, S1)))]
+    Sf = c.mgrs[a.from_bdd_key]
+    return wf(S1, c.uses) + [('Ext', Ext(S0, S1, c.uses)),
+                             ('same-function-by-name', And(isref(S1, r), semr(S1, r) == semr(Sf, a.u, 'sem2'))),
+                             ('reordering-setting-kept', And(S1.lastlen == S0.lastlen, S1.ctx == S0.ctx)),
+                             ('order-kept', M.keep(S0, S1, list(M.ORDER_FIELDS)))]
+
+
+COPY_USES = {'cache', 'rc', 'sem2', 'sem1', 'order'}
+COPYBDD = reg(Contract('dd.bdd.copy_bdd', [('u', 'int'), ('from_bdd', 'mgr'), ('to_bdd', 'mgr')], mgr='to_bdd',
+                       pre=copy_bdd_pre, post=copy_bdd_post, modifies=REC_MOD + ['lastlen'], ret='int', uses=COPY_USES,
+                       raises={'RuntimeError': Raise(when=lambda c: BoolVal(True))},
+                       note='the source manager is not in `modifies`: it is untouched (frame)'))
+reg(Contract('dd.bdd.BDD.copy', [('self', 'mgr'), ('u', 'int'), ('other', 'mgr')], mgr='other',
+             pre=lambda c: copy_bdd_pre(type(c)(**{**c.__dict__, 'a': type(c)(u=c.a.u, from_bdd=c.a.self, from_bdd_key=c.a.self_key,
+                                                                             to_bdd=c.a.other, to_bdd_key=c.a.other_key)})),
+             post=lambda c: copy_bdd_post(type(c)(**{**c.__dict__, 'a': type(c)(u=c.a.u, from_bdd=c.a.self, from_bdd_key=c.a.self_key,
+                                                                               to_bdd=c.a.other, to_bdd_key=c.a.other_key)})),
+             modifies=REC_MOD + ['lastlen'], ret='int', uses=COPY_USES, raises=COPYBDD.raises))
